@@ -208,8 +208,18 @@ def ev_remove(case, rec):
     for sub in case['subsets']:
         one = dict(case, subsets=[sub])
         co = {'nstn': case['nstn'], 'vel': case['vel'], 'tri': case['tri'], 'removed': len(sub)}
-        p = run_op(rec, 'remove', path, list(sub), DEFAULT_CLOCK, one, co)
+        arg = list(sub)
+        p = run_op(rec, 'remove', path, arg, DEFAULT_CLOCK, one, co)
         rec.nontriv((case['nstn'], case['soln'], case['vel'], case['tri'], tuple(sub)))
+        if arg != list(sub):
+            rec.fail('remove_stns_sinex modified the caller\'s list of stations', site='gnss:remove:argument', observed=arg, expected=list(sub),
+                     case=one, coords=co)
+        elif p is not None and case['nstn'] <= 4:
+            # depth 2: the SAME list object again (a batch over several files reuses it): the result must be the same
+            p2 = run_op(rec, 'remove', path, arg, DEFAULT_CLOCK, one, co)
+            if p2 is None or normalise(p2['lines']) != normalise(p['lines']):
+                rec.fail('a second removal with the same list object gives a different file', site='gnss:remove:second-call',
+                         observed=None if p2 is None else p2['npar'], expected=p['npar'], case=one, coords=co)
         if p is None:
             rec.outcome('malformed')
             continue
@@ -303,8 +313,7 @@ def ev_other(case, rec):
         else:
             bad = []
             for i, (r, (c, s)) in enumerate(zip(sites, m['stations'])):
-                lon = (115 + 3 * i) + (7 + i) / 60 + (12.5 + i) / 3600
-                lat = -((12 + 2 * i) + (50 - i) / 60 + (37.9 - i) / 3600)
+                lon, lat = snxgen.site_lonlat(i)[2:]
                 if r[0] != c or r[1] != 'A' or r[2] != '5013%dM001' % i or r[3] != 'P' or abs(r[5].dec() - lon) > 1e-12 or abs(r[6].dec() - lat) > 1e-12:
                     bad.append(('site fields', list(map(str, r[:7]))))
                 if r[7] != m['heights'][i]:
